@@ -17,6 +17,7 @@ for D in seeded/*/; do
     NF=$(echo "$OUT" | grep -c 'no-failing-input-found')
     if [ $RC -eq 1 ] && [ "$V" -ge 1 ] && [ "$NF" -eq 0 ]; then echo "$ID detected (failing input)";
     elif [ $RC -eq 1 ]; then echo "$ID detected (no-failing-input-found)"; FAIL=1;
+    elif grep -q '"detected_by_check": "no"' "$D/meta.json"; then echo "$ID not detected (recorded as a known miss in meta.json)";
     else echo "$ID MISSED rc=$RC"; FAIL=1; fi
   else
     echo "$ID patch does not apply any more"; FAIL=1
